@@ -188,7 +188,10 @@ def call_impl(jobs, kw):
     orig = js.Random
     js.Random = RecRandom
     try:
-        res = guarded(js.solve_job_shop, jobs, timeout=20, **kw)  # worst generated case runs < 2 s; 20 s = a real hang, also under load
+        # CPU-time guard (core.guarded): the random cases run < 2 s; the work-volume families (10^4 local-search evaluations on
+        # 100+ operations, 10^4-operation ready lists) need up to ~40 CPU-seconds, so the guard scales with the instance
+        n_ops = sum(len(j) for j in jobs)
+        res = guarded(js.solve_job_shop, jobs, timeout=20 if n_ops <= 60 else 600, **kw)
     finally:
         js.Random = orig
     if res[0] == "ok":
@@ -281,7 +284,7 @@ def oracle(case, out):
     """None if the output obeys the property, else a description."""
     jobs = case["jobs"]
     if out["kind"] == "hang":
-        return "implementation hangs (> 20 s)"
+        return "implementation hangs (CPU-time guard: 20 s for <= 60 operations, 600 s above)"
     if out["kind"] == "bad":
         return out["what"]
     if out["kind"] == "exc":
@@ -353,7 +356,7 @@ def oracle_nonfinite(case, out):
     if out["kind"] == "exc":
         return None
     if out["kind"] != "ok":
-        return out.get("what") or "implementation hangs (> 20 s)"
+        return out.get("what") or "implementation hangs (CPU-time guard: 20 s for <= 60 operations, 600 s above)"
     special = case.get("special") or {}
     dur = {(j, k): (float(special[f"{j},{k}"]) if f"{j},{k}" in special else o[1]) for j, job in enumerate(case["jobs"]) for k, o in enumerate(job)}
     mach = {(j, k): o[0] for j, job in enumerate(case["jobs"]) for k, o in enumerate(job)}
